@@ -16,10 +16,11 @@ TECHNIQUE = 'property-based testing (Hypothesis): generated products, component/
 LEVEL_TEXT = 'Generated-input search with a relational invariant between component and task states at every step; not a proof.'
 LEVEL_NOTE = 'Trusts the step observer and the builder.'
 
-CFG = gen.Cfg(facilities=True, nested="assembly", max_time=[40, 80])
+CFG = gen.Cfg(warm=4, facilities=True, nested="assembly", max_time=[40, 80])
 # arbitrary forests with arbitrary task assignment: only without workplaces (placement of nested
 # products outside the assembly form crashes, known finding D-PLC4 of C13)
-CFG_FREE = gen.Cfg(facilities=True, nested="free", max_wps=0, max_time=[40, 80])
+CFG_FREE = gen.Cfg(warm=3, facilities=True, nested="free", max_wps=0, max_time=[40, 80])
+CFG_FLAT = gen.Cfg(warm=2, facilities=True, max_time=[40, 80])
 
 
 def _with_one_sided_links(cfg):
@@ -43,11 +44,12 @@ def strategy(tier):
     from hypothesis import strategies as st
 
     if tier == "quick":
-        return st.one_of(gen.model_spec(CFG), gen.model_spec(CFG_FREE), _with_one_sided_links(CFG_FREE))
+        return st.one_of(gen.model_spec(CFG), gen.model_spec(CFG_FREE), _with_one_sided_links(CFG_FREE), gen.model_spec(CFG_FLAT))
     return st.one_of(
         gen.model_spec(CFG.copy(max_tasks=12, max_comps=7)),
         gen.model_spec(CFG_FREE.copy(max_tasks=12, max_comps=7)),
         _with_one_sided_links(CFG_FREE.copy(max_tasks=12, max_comps=7)),
+        gen.model_spec(CFG_FLAT.copy(max_tasks=12, max_comps=7)),
     )
 
 
